@@ -5,6 +5,9 @@ The EVM enters through two explicit hypotheses only: `succ` (does the simulated 
 an arbitrary function for soundness/termination, and monotone ("programs that do not inspect remaining gas") for
 sufficiency.  `gasUsed ≤ gasLimit` is revm's contract and is validated by correspondence, not proved.
 -/
+import Brc20.Model.FailedTx
+import Brc20.Proofs.FailedTx
+import Brc20.Proofs.Node
 import Brc20.Model.Gas
 import Brc20.Gen.Constants
 
@@ -153,5 +156,51 @@ theorem C16.estimate_tight (G : Nat) (succ : Succ) (fuel lo hi : Nat) (hlo : lo 
 /-! Non-vacuity: a threshold program needing 100000 gas. -/
 example : estimate 12000 21000 1000000000 (fun g => decide (100000 ≤ g)) = some 104921 := by decide
 example : gasLimit 12000 (lenFor 12000 104921) = 108000 := by decide
+
+/-! ### A failed transaction changes no state except, at most, its sender's nonce
+
+The model does not run code.  What it can carry: the *recorded* table writes of an indexer call whose single EVM run
+failed (out of gas included) are checked by the driver (`failedTxOk`, reject `failed-tx-wrote-state`), and for every
+call that passes this check and is accepted, the EVM state tables of the node after the call answer every key as
+before - storage and code without exception, accounts except the sender's own row (nonce) and the coinbase row (the
+zero address, which revm touches: rewritten with its current value or created as the empty account).  The tie: suite
+E sends the recorded writes of every transaction; oracle `failed-tx-state` compares the storage and code tables of
+the real engine before and after every failed transaction. -/
+
+open Node in
+/-- **Storage and code are untouched by a failed transaction, accounts except sender and coinbase too** - for every
+node, every recorded event list that passes `failedTxOk`, every accepted `addTxs` whose single run failed. -/
+theorem C16.failed_tx_changes_no_state (n : Node) (ts : Nat) (h : String) (idx : Nat) (txid : Option String)
+    (evs : List Ev) (k : Option Nat) (fs : List (String × String)) (okRun : Bool) (gas logs : Nat)
+    (hr : txRuns evs = [(fs, okRun, false, gas, logs)]) (hdisc : n.failedTxOk evs = true)
+    (hok : (n.addTxs ts h idx txid evs k).2 = .ok) :
+    (∀ key, ((n.addTxs ts h idx txid evs k).1.t .accountMemory).latest key = (n.t .accountMemory).latest key) ∧
+    (∀ key, ((n.addTxs ts h idx txid evs k).1.t .code).latest key = (n.t .code).latest key) ∧
+    (∀ key, key ≠ field fs "caller" → key ≠ zeroAddr →
+      ((n.addTxs ts h idx txid evs k).1.t .account).latest key = (n.t .account).latest key) := by
+  obtain ⟨_, _, _, _, _, n', happ, hn'⟩ := addTxs_ok hok
+  obtain ⟨hm, hc, ha⟩ := failedTxOk_writes hr hdisc
+  rw [hn']
+  refine ⟨?_, ?_, ?_⟩
+  · intro key
+    exact applyEvents_table_frame .accountMemory happ (fun st k v hmem => absurd hmem (hm st k v))
+  · intro key
+    exact applyEvents_table_frame .code happ (fun st k v hmem => absurd hmem (hc st k v))
+  · intro key h1 h2
+    refine applyEvents_table_frame .account happ (fun st k v hmem => ?_)
+    rcases ha st k v hmem with e | e
+    · rw [e]; exact fun x => h1 x.symm
+    · rw [e]; exact fun x => h2 x.symm
+
+open Node in
+/-- the check refuses a failed transaction that wrote a storage slot (non-vacuity of the discipline: the rule bites) -/
+example : ({} : Node).failedTxOk
+    [.x "tx" [("caller", "aa")] true false 21000 0, .s "account_memory" 0 "k" (some "v")] = false := by decide
+
+open Node in
+/-- and accepts the nonce bump of the sender together with the touched coinbase -/
+example : ({} : Node).failedTxOk
+    [.x "tx" [("caller", "aa")] true false 21000 0, .s "account" 0 "aa" (some "row"),
+     .s "account" 0 zeroAddr (some emptyAccountRow)] = true := by decide
 
 end Brc20
